@@ -157,6 +157,14 @@ def run_scratch(prop, quick_div=1):
     if not os.path.exists(binp):
         return 2, "build failed: " + out, None
     rc, out = sh(f"{binp} run {prop} quick", env=env, timeout=1800)
+    # as ./check does: the first quarter of the episodes again on the plain-release build
+    if rc == 0:
+        sh("cargo build --profile plain --offline 2>&1 | tail -3", cwd=f"{SCRATCH}/sim", env=env)
+        plain = f"{SCRATCH}/target/plain/rtcp-sim"
+        if os.path.exists(plain):
+            penv = dict(env, VERIF_PROFILE="plain", VERIF_EPISODE_DIV="4", VERIF_EVIDENCE_DIR=f"{SCRATCH}/evidence-plain")
+            rc, out2 = sh(f"{plain} run {prop} quick", env=penv, timeout=1800)
+            out += out2
     # as ./check does: the deep-chain step on an unoptimised build for C01 / C11
     if rc == 0 and prop in ("C01", "C11"):
         sh("cargo build --offline 2>&1 | tail -3", cwd=f"{SCRATCH}/sim", env=env)
@@ -176,9 +184,16 @@ def run_scratch(prop, quick_div=1):
 def replay_with(release_bin, replay, env=None):
     """Replay a file with the release binary, or with the unoptimised sibling for dev-profile files."""
     try:
-        dev = '"profile": "dev"' in open(replay).read(4096)
+        head = open(replay).read()
+        dev = '"profile": "dev"' in head
+        plain = '"profile": "plain"' in head
     except OSError:
-        dev = False
+        dev = plain = False
+    if plain:
+        pbin = release_bin.replace("/release/", "/plain/")
+        if release_bin == BIN:
+            sh(f"{VERIF}/check build")
+        return sh(f"{pbin} replay {replay}", env=dict(env or ENV, VERIF_PROFILE="plain"))
     if dev:
         dbg = release_bin.replace("/release/", "/debug/")
         if release_bin == BIN:
